@@ -386,6 +386,21 @@ func (e *seqEngine) Exec(op *Op) string {
 		}
 		sort.Strings(fl)
 		return "cur=" + strings.Join(cur, ",") + " fl=" + strings.Join(fl, ",")
+	case "fsck":
+		// C07: full directory bytes plus the live bucket table, for the Lean fsck
+		files := readDirFiles(e.dir)
+		var sb strings.Builder
+		first := true
+		for i, p := range e.st.Index().VerifBuckets() {
+			if p != 0 {
+				if !first {
+					sb.WriteByte(',')
+				}
+				first = false
+				fmt.Fprintf(&sb, "%d:%d", i, p)
+			}
+		}
+		return "img=" + dumpFiles(files) + " buckets=" + sb.String()
 	case "c11mark", "c11end", "c11round":
 		return "ok"
 	case "sizes":
